@@ -18,7 +18,8 @@
     hypotheses in the theorems).
 
     The model is of the REPAIRED [parse_socket_addr] (C15 fix of the bracket test); the
-    original test is kept under [fixed := false] for the witnesses in [Findings]. *)
+    original test is kept under [fixed := false] for the witnesses in [Findings].  Likewise
+    for the repaired trailing-comma acceptance of the TXT record parser. *)
 From Sci Require Export Common.Outcome.
 From Sci Require Export Gen.TextConfig.
 Local Open Scope N_scope.
@@ -35,6 +36,7 @@ Definition c_lbr := 91. Definition c_rbr := 93. Definition c_us := 95.
 Definition P_SLICE := 1.   (* str index: range or char boundary *)
 Definition P_SUB := 2.     (* usize subtraction underflow *)
 Definition P_EXPECT := 3.  (* Option::expect on None *)
+Definition P_FUEL := 9.    (* model artefact: loop fuel exhausted (proved unreachable) *)
 
 (** ** [str] primitives *)
 
@@ -127,7 +129,8 @@ Definition to_digits (radix v : N) : str :=
 Inductive perr :=
 | EIsd | EAsn | EIsdAsn | EService | EHostAddr | EScion | EScionV4 | EScionV6 | EScionSvc
 | ESocket | ESocketV4 | ESocketV6 | ESocketSvc
-| ESvcStr.   (* ServiceAddr::from_str: &'static str *)
+| ESvcStr    (* ServiceAddr::from_str: &'static str *)
+| ETxt (code : N).   (* resolver/txt.rs TxtParseError variant 1..7; 0 = record without the scion=v1; prefix *)
 
 Definition res (A : Type) := outcome A perr.
 
@@ -323,15 +326,149 @@ Definition parse_sock_any (O : iporacle) (s : str) : res (N * host * N) :=
 Definition parse_sock_ip (O : iporacle) (s : str) : res (N * host * N) :=
   first_ok [parse_sock_k O KV4 s; parse_sock_k O KV6 s] ESocket.
 
-(** ** the fifteen [FromStr] / [Display] pairs under one roof *)
+(** ** scion-stack resolver/txt.rs: TXT records "scion=v1;[ia,host],[ia,host]..." *)
+
+(** [char::is_whitespace] (Unicode White_Space) on the UTF-8 encoding: U+0009..U+000D, U+0020;
+    U+0085, U+00A0; U+1680, U+2000..U+200A, U+2028, U+2029, U+202F, U+205F, U+3000 *)
+Definition ws1 (b : N) : bool := ((9 <=? b) && (b <=? 13)) || (b =? 32).
+Definition ws2 (b c : N) : bool := (b =? 194) && ((c =? 133) || (c =? 160)).
+Definition ws3 (b c d : N) : bool :=
+  ((b =? 225) && (c =? 154) && (d =? 128)) ||
+  ((b =? 226) && (c =? 128) && (((128 <=? d) && (d <=? 138)) || (d =? 168) || (d =? 169) || (d =? 175))) ||
+  ((b =? 226) && (c =? 129) && (d =? 159)) ||
+  ((b =? 227) && (c =? 128) && (d =? 128)).
+
+(** [str::trim_start] *)
+Fixpoint trim_start (s : str) : str :=
+  match s with
+  | [] => []
+  | b :: r =>
+    if ws1 b then trim_start r else
+    match r with
+    | [] => s
+    | c :: r1 =>
+      if ws2 b c then trim_start r1 else
+      match r1 with
+      | [] => s
+      | d :: r2 => if ws3 b c d then trim_start r2 else s
+      end
+    end
+  end.
+(** [str::trim_end] on the reversed string (the last byte first) *)
+Fixpoint trim_end_rev (r : str) : str :=
+  match r with
+  | [] => []
+  | b :: t =>
+    if ws1 b then trim_end_rev t else
+    match t with
+    | [] => r
+    | c :: t1 =>
+      if ws2 c b then trim_end_rev t1 else
+      match t1 with
+      | [] => r
+      | d :: t2 => if ws3 d c b then trim_end_rev t2 else r
+      end
+    end
+  end.
+Definition trim (s : str) : str := rev (trim_end_rev (rev (trim_start s))).
+
+Fixpoint strip_prefix (p s : str) : option str :=
+  match p, s with
+  | [], _ => Some s
+  | a :: p', b :: s' => if a =? b then strip_prefix p' s' else None
+  | _ :: _, [] => None
+  end.
+
+(** [str::find(c)]: byte index of the first occurrence *)
+Fixpoint find_idx (c : N) (s : str) : option N :=
+  match s with
+  | [] => None
+  | b :: r => if b =? c then Some 0 else match find_idx c r with Some i => Some (i + 1) | None => None end
+  end.
+
+Definition is_empty {A} (s : list A) : bool := match s with [] => true | _ => false end.
+
+(** [IpAddr::from_str] *)
+Definition ip_from_str (O : iporacle) (s : str) : option host :=
+  match ip4_parse O s with
+  | Some a => Some (H4 a)
+  | None => match ip6_parse O s with Some a => Some (H6 a) | None => None end
+  end.
+
+(** the [while !remaining.is_empty()] loop of [parse_txt_payload]; [acc] is [addresses]
+    reversed.  Every iteration consumes at least two bytes, so [S (length payload)] is
+    enough fuel. *)
+Fixpoint txt_loop (fuel : nat) (fixed : bool) (O : iporacle) (remaining : str) (acc : list (N * host))
+  : res (list (N * host)) :=
+  match fuel with
+  | O => Panic P_FUEL
+  | S f =>
+    if is_empty remaining then Ok (rev acc) else
+    if negb (starts_with c_lbr remaining) then Err (ETxt 2) else
+    match find_idx c_rbr remaining with
+    | None => Err (ETxt 3)
+    | Some close_idx =>
+      entry0 <- str_slice remaining 1 close_idx ;;
+      rest0 <- str_slice remaining (close_idx + 1) (len remaining) ;;
+      let entry := trim entry0 in
+      let rest := trim rest0 in
+      match split_once c_comma entry with
+      | None => Err (ETxt 4)
+      | Some (isd_asn_str, host_str) =>
+        match parse_ia (trim isd_asn_str) with
+        | Panic p => Panic p
+        | Err _ => Err (ETxt 5)
+        | Ok isd_asn =>
+          match ip_from_str O (trim host_str) with
+          | None => Err (ETxt 6)
+          | Some host =>
+            let acc' := (isd_asn, host) :: acc in
+            if is_empty rest then Ok (rev acc') else
+            if negb (starts_with c_comma rest) then Err (ETxt 7) else
+            rest1 <- str_slice rest 1 (len rest) ;;
+            let remaining' := trim rest1 in
+            (* C15 repair: a separator must be followed by another entry *)
+            if fixed && is_empty remaining' then Err (ETxt 2) else
+            txt_loop f fixed O remaining' acc'
+          end
+        end
+      end
+    end
+  end.
+
+Definition parse_txt_payload_gen (fixed : bool) (O : iporacle) (payload : str) : res (list (N * host)) :=
+  let remaining := trim payload in
+  if is_empty remaining then Err (ETxt 1) else txt_loop (S (length remaining)) fixed O remaining [].
+
+(** [resolve_txt_records_with_invalid]: records without the prefix are skipped *)
+Definition parse_txt_record_gen (fixed : bool) (O : iporacle) (record : str) : res (list (N * host)) :=
+  match strip_prefix SCION_TXT_PREFIX record with
+  | None => Err (ETxt 0)
+  | Some payload => parse_txt_payload_gen fixed O payload
+  end.
+Definition parse_txt_payload := parse_txt_payload_gen true.
+Definition parse_txt_record := parse_txt_record_gen true.
+
+(** the record format of the module documentation *)
+Fixpoint display_txt_entries (O : iporacle) (l : list (N * host)) : str :=
+  match l with
+  | [] => []
+  | [(ia, h)] => [c_lbr] ++ display_scion_addr O ia h ++ [c_rbr]
+  | (ia, h) :: r => [c_lbr] ++ display_scion_addr O ia h ++ [c_rbr; c_comma] ++ display_txt_entries O r
+  end.
+Definition display_txt (O : iporacle) (l : list (N * host)) : str :=
+  SCION_TXT_PREFIX ++ display_txt_entries O l.
+
+(** ** the fifteen [FromStr] / [Display] pairs, and the TXT record parser, under one roof *)
 Inductive val :=
-| VNum (n : N) | VHost (h : host) | VAddr (ia : N) (h : host) | VSock (ia : N) (h : host) (port : N).
+| VNum (n : N) | VHost (h : host) | VAddr (ia : N) (h : host) | VSock (ia : N) (h : host) (port : N)
+| VList (l : list (N * host)).
 
 Definition K_ISD := 0. Definition K_ASN := 1. Definition K_IA := 2. Definition K_SVC := 3.
 Definition K_HOST := 4. Definition K_ADDR_SVC := 5. Definition K_ADDR_V4 := 6.
 Definition K_ADDR_V6 := 7. Definition K_ADDR := 8. Definition K_IPADDR := 9.
 Definition K_SOCK_SVC := 10. Definition K_SOCK_V4 := 11. Definition K_SOCK_V6 := 12.
-Definition K_SOCK := 13. Definition K_IPSOCK := 14.
+Definition K_SOCK := 13. Definition K_IPSOCK := 14. Definition K_TXT := 15.
 
 Definition omap {A B} (f : A -> B) (o : res A) : res B :=
   match o with Ok a => Ok (f a) | Err e => Err e | Panic p => Panic p end.
@@ -339,27 +476,38 @@ Definition vaddr (p : N * host) : val := VAddr (fst p) (snd p).
 Definition vsock (p : N * host * N) : val := VSock (fst (fst p)) (snd (fst p)) (snd p).
 
 Definition parse_kind_gen (fixed : bool) (O : iporacle) (k : N) (s : str) : res val :=
-  match k with
-  | 0 => omap VNum (parse_isd s)
-  | 1 => omap VNum (parse_asn s)
-  | 2 => omap VNum (parse_ia s)
-  | 3 => omap VNum (parse_svc s)
-  | 4 => omap VHost (parse_host O s)
-  | 5 => omap vaddr (parse_scion_addr O KSvc s)
-  | 6 => omap vaddr (parse_scion_addr O KV4 s)
-  | 7 => omap vaddr (parse_scion_addr O KV6 s)
-  | 8 => omap vaddr (parse_addr_any O s)
-  | 9 => omap vaddr (parse_addr_ip O s)
-  | 10 => omap vsock (parse_socket_addr_gen fixed O KSvc ESocketSvc s)
-  | 11 => omap vsock (parse_socket_addr_gen fixed O KV4 ESocketV4 s)
-  | 12 => omap vsock (parse_socket_addr_gen fixed O KV6 ESocketV6 s)
-  | 13 => omap vsock (first_ok [parse_socket_addr_gen fixed O KSvc ESocketSvc s;
-                                parse_socket_addr_gen fixed O KV4 ESocketV4 s;
-                                parse_socket_addr_gen fixed O KV6 ESocketV6 s] ESocket)
-  | _ => omap vsock (first_ok [parse_socket_addr_gen fixed O KV4 ESocketV4 s;
-                               parse_socket_addr_gen fixed O KV6 ESocketV6 s] ESocket)
-  end.
+  if k =? K_ISD then omap VNum (parse_isd s)
+  else if k =? K_ASN then omap VNum (parse_asn s)
+  else if k =? K_IA then omap VNum (parse_ia s)
+  else if k =? K_SVC then omap VNum (parse_svc s)
+  else if k =? K_HOST then omap VHost (parse_host O s)
+  else if k =? K_ADDR_SVC then omap vaddr (parse_scion_addr O KSvc s)
+  else if k =? K_ADDR_V4 then omap vaddr (parse_scion_addr O KV4 s)
+  else if k =? K_ADDR_V6 then omap vaddr (parse_scion_addr O KV6 s)
+  else if k =? K_ADDR then omap vaddr (parse_addr_any O s)
+  else if k =? K_IPADDR then omap vaddr (parse_addr_ip O s)
+  else if k =? K_SOCK_SVC then omap vsock (parse_socket_addr_gen fixed O KSvc ESocketSvc s)
+  else if k =? K_SOCK_V4 then omap vsock (parse_socket_addr_gen fixed O KV4 ESocketV4 s)
+  else if k =? K_SOCK_V6 then omap vsock (parse_socket_addr_gen fixed O KV6 ESocketV6 s)
+  else if k =? K_SOCK then
+    omap vsock (first_ok [parse_socket_addr_gen fixed O KSvc ESocketSvc s;
+                          parse_socket_addr_gen fixed O KV4 ESocketV4 s;
+                          parse_socket_addr_gen fixed O KV6 ESocketV6 s] ESocket)
+  else if k =? K_TXT then omap VList (parse_txt_record_gen fixed O s)
+  else
+    omap vsock (first_ok [parse_socket_addr_gen fixed O KV4 ESocketV4 s;
+                          parse_socket_addr_gen fixed O KV6 ESocketV6 s] ESocket).
 Definition parse_kind := parse_kind_gen true.
+
+(** which host variants a type can hold *)
+Definition host_fits (k : N) (h : host) : bool :=
+  match h with
+  | HS _ => (k =? K_HOST) || (k =? K_ADDR_SVC) || (k =? K_ADDR) || (k =? K_SOCK_SVC) || (k =? K_SOCK)
+  | H4 _ => (k =? K_HOST) || (k =? K_ADDR_V4) || (k =? K_ADDR) || (k =? K_IPADDR) ||
+            (k =? K_SOCK_V4) || (k =? K_SOCK) || (k =? K_IPSOCK)
+  | H6 _ => (k =? K_HOST) || (k =? K_ADDR_V6) || (k =? K_ADDR) || (k =? K_IPADDR) ||
+            (k =? K_SOCK_V6) || (k =? K_SOCK) || (k =? K_IPSOCK)
+  end.
 
 (** Display; [None] when the type cannot hold the value *)
 Definition display_kind (O : iporacle) (k : N) (v : val) : option str :=
@@ -368,6 +516,9 @@ Definition display_kind (O : iporacle) (k : N) (v : val) : option str :=
     if k =? K_ISD then Some (display_isd n) else if k =? K_ASN then Some (display_asn n)
     else if k =? K_IA then Some (display_ia n) else if k =? K_SVC then Some (display_svc n) else None
   | VHost h => if k =? K_HOST then Some (display_host O h) else None
-  | VAddr ia h => if (5 <=? k) && (k <=? 9) then Some (display_scion_addr O ia h) else None
-  | VSock ia h p => if (10 <=? k) && (k <=? 14) then Some (display_socket_addr O ia h p) else None
+  | VAddr ia h => if (5 <=? k) && (k <=? 9) && host_fits k h then Some (display_scion_addr O ia h) else None
+  | VSock ia h p => if (10 <=? k) && (k <=? 14) && host_fits k h then Some (display_socket_addr O ia h p) else None
+  | VList l =>
+    if (k =? K_TXT) && negb (is_empty l) && forallb (fun p => match snd p with HS _ => false | _ => true end) l
+    then Some (display_txt O l) else None
   end.
